@@ -64,6 +64,8 @@ RULE = ("faults: scenario = functional {rootfinder, equilibrium, minimize, solve
         "reassign: history forward call -> the caller puts a new tensor under one of its object's names -> backward (first / second order) for "
         "rootfinder, equilibrium, minimize, mcquad, quad (tensor limits differentiated) and solve_ivp (five methods, both grid directions, time "
         "points and initial state differentiated): the object keeps the caller's new tensor and all gradients equal those of the undisturbed run. "
+        "reassign_linop: the same history for solve / symeig on the caller's operator object (wrapped dense matrix: attribute mat; own operator "
+        "class), all methods, Hermitian or not, first / second order. "
         "sharedmem: the object holds two DISTINCT tensor objects viewing one storage (detach / .data / view_as / full slice handle, or two "
         "Parameters made from one storage), names listed in a drawn order: identity, flags, registration and values after forward, backward and "
         "second backward, and results equal to those of a twin whose second tensor has its own storage. "
@@ -1150,6 +1152,97 @@ def sharedmem_st(draw, tier="quick"):
     return case
 
 
+def run_reassign_linop(case):
+    """The reassign history for the functionals that take the caller's LinearOperator: solve / symeig on an operator object; the caller then
+    puts a new tensor under the operator's attribute (`A.mat = ...` of a wrapped dense matrix, `A.A = ...` of its own operator class);
+    then the backward pass through the earlier result runs. The operator must keep the caller's new tensor, and the gradients w.r.t. the
+    tensor of the forward call and the right-hand side must be those of the undisturbed run."""
+    import warnings
+    from xitorch import LinearOperator
+    from xitorch.linalg import solve, symeig
+    from pbt.harness import xt_call
+    DT = torch.float64
+    fn, opkind, herm = case["functional"], case["opkind"], bool(case["herm"]) or case["functional"] == "symeig"
+    second = case["order"] == 2
+    n = 3
+    labels = ["task=reassign_linop", "functional=" + fn, "opkind=" + opkind, "herm=%s" % herm, "method=" + case["method"], "order=%d" % case["order"]]
+
+    def build():
+        g = gen.seeded(case["seed"])
+        A0 = 0.4 * torch.randn((n, n), generator=g, dtype=DT)
+        A0 = (A0 + A0.T) * 0.5 if herm else A0
+        A0 = A0 + 2.0 * torch.eye(n, dtype=DT)
+        leaf = A0.clone().requires_grad_()
+        B = torch.randn((n, 2), generator=g, dtype=DT).requires_grad_()
+        if opkind == "dense":
+            op, attr = LinearOperator.m(leaf, is_hermitian=herm), "mat"
+        else:
+            class Op(LinearOperator):
+                def __init__(self, A):
+                    super().__init__(shape=A.shape, is_hermitian=herm, dtype=A.dtype, device=A.device)
+                    self.A = A
+
+                def _mv(self, x):
+                    return torch.matmul(self.A, x.unsqueeze(-1)).squeeze(-1)
+
+                def _getparamnames(self, prefix=""):
+                    return [prefix + "A"]
+            op, attr = Op(leaf), "A"
+        return op, attr, leaf, B, g
+
+    def call(op, B):
+        torch.manual_seed(case["seed"])
+        with warnings.catch_warnings():
+            warnings.simplefilter("ignore")
+            if fn == "solve":
+                return solve(op, B, method=case["method"])
+            evals, evecs = symeig(op, neig=2, method=case["method"])
+            return torch.cat([evals.reshape(-1), (evecs * evecs).reshape(-1)])
+
+    def grads(y, xs, g):
+        W = torch.randn(y.shape, generator=g, dtype=DT)
+        torch.manual_seed(case["seed"])
+        with warnings.catch_warnings():
+            warnings.simplefilter("ignore")
+            gs = torch.autograd.grad((y * W).sum(), xs, create_graph=second, allow_unused=True)
+            if second:
+                terms = [(gi * gi).sum() for gi in gs if gi is not None and gi.requires_grad]
+                if terms:
+                    gs = list(gs) + list(torch.autograd.grad(sum(terms), xs, allow_unused=True))
+        return [None if gi is None else gi.detach().clone() for gi in gs]
+
+    res = []
+    for reassign in (False, True):
+        op, attr, leaf, B, g = build()
+        xs = [leaf, B] if fn == "solve" else [leaf]
+        y = xt_call(call, op, B, _where="forward")
+        newt = None
+        if reassign:
+            newt = (leaf.detach() * 1.5 + 0.25 * torch.eye(n, dtype=DT)).requires_grad_()
+            setattr(op, attr, newt)
+        got = xt_call(grads, y, xs, g, _where="backward")
+        if reassign and getattr(op, attr) is not newt:
+            back = "the tensor of the forward call" if getattr(op, attr) is leaf else "another tensor"
+            return violation("reassigned_tensor_reverted", "after the backward pass the caller's operator holds %s under %r instead of the "
+                             "tensor the caller had put there before the backward pass" % (back, attr), labels)
+        res.append(got)
+    for k, (a, r_) in enumerate(zip(res[1], res[0])):
+        if (a is None) != (r_ is None) or (a is not None and float((a - r_).abs().max()) > 1e-9 * (1 + float(r_.abs().max()))):
+            return violation("gradient_uses_reassigned_tensor", "gradient #%d w.r.t. the tensors of the forward call changed when the caller re-assigned "
+                             "the operator's %r between forward and backward: %s vs %s" % (k, attr, None if a is None else a.reshape(-1)[:3].tolist(),
+                                                                                            None if r_ is None else r_.reshape(-1)[:3].tolist()), labels)
+    return ok(labels, nontrivial=True)
+
+
+@st.composite
+def reassign_linop_st(draw, tier="quick"):
+    fn = draw(st.sampled_from(["solve", "solve", "solve", "symeig"]))
+    return {"functional": fn, "opkind": draw(st.sampled_from(["dense", "user"])), "herm": draw(st.booleans()),
+            "method": draw(st.sampled_from(["custom_exactsolve", "cg", "bicgstab", "gmres", "exactsolve"] if fn == "solve"
+                                           else ["custom_exacteig", "davidson", "exacteig"])),
+            "order": draw(st.sampled_from([1, 1, 2])), "seed": draw(st.integers(0, 2 ** 31 - 1))}
+
+
 def tasks(tier):
     return [
         # round 3: the new kinds (8 of 29 function kinds, 3 of 7 operator kinds, 2 of 8 nesting targets) come on top of the former
@@ -1157,6 +1250,7 @@ def tasks(tier):
         Task("nesting", machine=machine, run=run_nesting, examples={"quick": 2600, "thorough": 16000},
              steps={"quick": 14, "thorough": 24}),
         Task("sharedmem", strategy=sharedmem_st(tier), run=run_sharedmem, examples={"quick": 120, "thorough": 1200}),
+        Task("reassign_linop", strategy=reassign_linop_st(tier), run=run_reassign_linop, examples={"quick": 100, "thorough": 1000}),
         Task("reassign", strategy=reassign_st(tier), run=run_reassign, examples={"quick": 160, "thorough": 1500}),
         # the expensive task last: under a wall budget cut short (loaded machine) the cheap tasks have run
         # round 4: two thin corners of the scenario space as small tasks of their own (see scenario_st), taken out of the budget of `faults`
